@@ -82,9 +82,47 @@ pub fn run(ctx: &mut Ctx) {
         let alpha = alpha_pick(rng);
         let log_gain = (idx / 4) % 2 == 1;
         let rate = rate_pick(rng, idx / 8);
-        let w = random_lsp(rng, m);
+        let mut alpha = alpha;
+        let mut w = random_lsp(rng, m);
+        if idx % 16 == 7 && m % 2 == 0 {
+            // a set that is mirror-symmetric about pi/2, bit-exactly in its cosines, without
+            // warping: A(z) is then a polynomial in z^-2 and every other response sample is 0
+            alpha = 0.0;
+            let min_gap = 1.001 * PI / (4.0 * (m as f64 + 1.0));
+            let mut half: Vec<f64> = Vec::new();
+            let mut lo = min_gap;
+            for k in 0..m / 2 {
+                let hi = PI / 2.0 - min_gap * (m / 2 - k) as f64;
+                let mut pick = None;
+                for _ in 0..64 {
+                    let x = rng.uniform(lo, hi.max(lo));
+                    if (-(x.cos())).to_bits() == (PI - x).cos().to_bits() {
+                        pick = Some(x);
+                        break;
+                    }
+                }
+                let Some(x) = pick else { break };
+                half.push(x);
+                lo = x + min_gap;
+            }
+            if half.len() == m / 2 && half.last().map(|x| PI / 2.0 - x >= min_gap / 2.0).unwrap_or(false) {
+                let mut sym = half.clone();
+                sym.extend(half.iter().rev().map(|x| PI - x));
+                if sym.windows(2).all(|p| p[1] - p[0] >= min_gap) {
+                    w = sym;
+                    ctx.count("mirror_symmetric_sets", 1.0);
+                }
+            }
+        }
         // (a gain of exactly one is a corner of the gain normalisation)
-        let k = if idx % 10 == 3 { 1.0 } else { rng.log_uniform(0.2, 5.0) };
+        // (the filter is linear in K: very quiet and very loud voices as well)
+        let k = if idx % 10 == 3 {
+            1.0
+        } else if idx % 3 == 1 {
+            rng.log_uniform(1e-6, 400.0)
+        } else {
+            rng.log_uniform(0.2, 5.0)
+        };
         one_case(ctx, idx, w, stage, alpha, log_gain, rate, k);
     });
 }
